@@ -1,20 +1,9 @@
 /- Boolean checkers, sound, for the C08 domain predicates (`SafeKeys`, `ItemsHaveScalars`,
    `Compat`), so that concrete documents can be shown to lie in the domain by kernel evaluation. -/
 import YtkProofs.ApplyDiff
+import YtkProofs.RebuildB
 
 namespace Ytk
-
-def safeKeyB (k : String) : Bool :=
-  !k.toList.isEmpty && k.toList.all (fun c => c != '.' && c != '[' && c != ']')
-
-theorem safeKeyB_sound {k : String} (h : safeKeyB k = true) : SafeKey k := by
-  simp only [safeKeyB, Bool.and_eq_true, Bool.not_eq_true', List.all_eq_true, bne_iff_ne, ne_eq] at h
-  refine ⟨?_, fun c hc => ?_⟩
-  · intro e
-    rw [e] at h
-    simp at h
-  · have := h.2 c hc
-    exact ⟨this.1.1, this.1.2, this.2⟩
 
 mutual
 def Node.safeKeysB : Node → Bool
@@ -53,45 +42,6 @@ theorem safeKeysKvsB_sound : ∀ (kvs : List (String × Node)), safeKeysKvsB kvs
     rcases List.mem_cons.mp hp with e | hp
     · rw [e]; exact ⟨safeKeyB_sound h.1.1, Node.safeKeysB_sound y h.1.2⟩
     · exact safeKeysKvsB_sound r h.2 p hp
-end
-
-mutual
-def Node.itemsB : Node → Bool
-  | .leaf _ => true
-  | .list xs => itemsListB xs
-  | .cont kvs => itemsKvsB kvs
-def itemsListB : List Node → Bool
-  | [] => true
-  | x :: xs => decide (0 < x.scalarCount) && x.itemsB && itemsListB xs
-def itemsKvsB : List (String × Node) → Bool
-  | [] => true
-  | (_, x) :: r => x.itemsB && itemsKvsB r
-end
-
-mutual
-theorem Node.itemsB_sound : ∀ (n : Node), n.itemsB = true → n.ItemsHaveScalars
-  | .leaf v, _ => .leaf v
-  | .list xs, h => by
-    simp only [Node.itemsB] at h
-    exact .list (fun x hx => (itemsListB_sound xs h x hx).1) (fun x hx => (itemsListB_sound xs h x hx).2)
-  | .cont kvs, h => by
-    simp only [Node.itemsB] at h
-    exact .cont (itemsKvsB_sound kvs h)
-theorem itemsListB_sound : ∀ (xs : List Node), itemsListB xs = true →
-    ∀ x ∈ xs, 0 < x.scalarCount ∧ x.ItemsHaveScalars
-  | [], _, _, hx => by cases hx
-  | y :: ys, h, x, hx => by
-    simp only [itemsListB, Bool.and_eq_true, decide_eq_true_eq] at h
-    rcases List.mem_cons.mp hx with e | hx
-    · rw [e]; exact ⟨h.1.1, Node.itemsB_sound y h.1.2⟩
-    · exact itemsListB_sound ys h.2 x hx
-theorem itemsKvsB_sound : ∀ (kvs : List (String × Node)), itemsKvsB kvs = true → ∀ e ∈ kvs, e.2.ItemsHaveScalars
-  | [], _, _, he => by cases he
-  | (k, y) :: r, h, e, he => by
-    simp only [itemsKvsB, Bool.and_eq_true] at h
-    rcases List.mem_cons.mp he with e' | he
-    · rw [e']; exact Node.itemsB_sound y h.1
-    · exact itemsKvsB_sound r h.2 e he
 end
 
 mutual
